@@ -205,6 +205,15 @@ theorem dst_hooks_table (l : Link) (remove : Bool) :
   rcases l with ⟨a, n⟩
   cases a <;> cases n <;> cases remove <;> rfl
 
+/-- `_register_anytrait` (the `-` / `+meta` names, outside the fragment): ONE anytrait notifier with the
+user's handler, no named notifier, nothing below is visited — whatever the item's flags. -/
+theorem anytrait_table (nn nt remove : Bool) (ty : Nat) :
+    (match lookup prog.regMethods RegName.anytrait with
+     | some b => exec { nextNone := nn, notify := nt, type := ty, remove := remove } b {}
+     | none => { raised := true }) =
+      { anyHooks := [Who.user], done := true } := by
+  cases nn <;> cases nt <;> cases remove <;> rfl
+
 /-- The three listener types are distinct constants and `type_map` sends List / Dict / Set traits to
 `_register_list / _register_dict / _register_list` (alias) and everything else to `_register_simple`. -/
 theorem constants_table :
